@@ -190,12 +190,14 @@ theorem step_masgK {s s' : St} {r : String} (j i : Nat) (h : Inv s) (hs : stepSi
   simp only [stepSimple] at hs
   split at hs
   · rename_i old _ _ _
-    have hg := good_optDisconnect h old
     split at hs
-    · simp at hs; obtain ⟨rfl, rfl⟩ := hs
-      exact hg.congr rfl rfl rfl rfl (Nat.le_refl _)
-    · simp at hs; obtain ⟨rfl, rfl⟩ := hs
-      exact hg
+    · core_branch h hs
+    · have hg := good_optDisconnect h old
+      split at hs
+      · simp at hs; obtain ⟨rfl, rfl⟩ := hs
+        exact hg.congr rfl rfl rfl rfl (Nat.le_refl _)
+      · simp at hs; obtain ⟨rfl, rfl⟩ := hs
+        exact hg
   · core_branch h hs
 
 theorem step_swapK {s s' : St} {r : String} (i j : Nat) (h : Inv s) (hs : stepSimple s (.swapK i j) = some (s', r)) :
